@@ -48,8 +48,11 @@ RotateVerdict(e) ==
 
 \* look-ups repeated on the same objects after in-place edits (rotate, swapped operands, a new root, an unlinked node): at every
 \* step each answer is judged against the link structure AS IT IS THEN (an index built earlier must not survive an edit)
+\* every operand's parent link points back at the node that holds it
+BackLinksOK(h) == \A i \in 1..h.n : (h.l[i] # 0 => h.p[h.l[i]] = i) /\ (h.r[i] # 0 => h.p[h.r[i]] = i)
 EditSessionVerdict(e) ==
   UNION {LET st == e.steps[k]  h == st.h IN
+         (IF BackLinksOK(h) THEN {} ELSE {"links_inconsistent_after_" \o st.after}) \cup
          (IF \A j \in 1..Len(st.findid) : LET f == st.findid[j]
                                                have == {i \in Reach(h, f.start) : h.nid[i] = f.id} IN
                 IF have = {} THEN f.got = 0 ELSE f.got \in have THEN {} ELSE {"find_id_after_" \o st.after})
